@@ -11,7 +11,7 @@ from ..model import Class, Func, own_nodes, src
 from ..pathsem import function_paths
 from ..typeinf import classes_of, elem
 from .c08 import forward_shape, op_paths
-from .common import chain, element_placements, loop_body_paths, mentions, order_of, possible_classes
+from .common import chain, derived_names, element_placements, loop_body_paths, mentions, order_of, possible_classes
 
 PROPERTY = "C19"
 LEVEL = "other"
@@ -236,23 +236,10 @@ def splice_rule(ctx: Ctx, rep: Report, q: str, rid: str = "R19.4") -> None:  # n
         if poss is not None and not poss:
             continue  # infeasible by the declared element type
         places = []
+        der = derived_names(path, var)
         for node, lab in path:
             if node.kind == "stmt" and node.ast is not None:
-                places += element_placements(node.ast, var)
-        # `aces = x.ungroup_ports(); _items.extend(aces)`
-        env: Dict[str, ast.AST] = {}
-        for node, lab in path:
-            if node.kind == "stmt" and isinstance(node.ast, (ast.Assign, ast.AnnAssign)):
-                t = node.ast.targets[0] if isinstance(node.ast, ast.Assign) else node.ast.target
-                if isinstance(t, ast.Name) and node.ast.value is not None:
-                    env[t.id] = node.ast.value
-        for node, lab in path:
-            if node.kind == "stmt" and node.ast is not None:
-                for x in ast.walk(node.ast):
-                    if isinstance(x, ast.Call) and isinstance(x.func, ast.Attribute) and x.func.attr == "extend" and len(x.args) == 1 and isinstance(x.args[0], ast.Name):
-                        d = env.get(x.args[0].id)
-                        if d is not None and mentions(d, var) and not mentions(x.args[0], var):
-                            places.append(("replace", x))
+                places += element_placements(node.ast, var, der)
         for k, call in places:
             if isinstance(call, ast.Call):
                 acc_names.add(src(call.func.value))
